@@ -27,7 +27,7 @@ MANIFEST = dict(
          "unschedule_all/start/stop in the code's statement order, with an emitter-constructor or emitter-start failure "
          "injectable in every call and an arbitrary set-iteration order in start() - refines a simple map watch -> handler "
          "set, with equal per-call results), C13_emitters_exact, C13_share_one_emitter, C13_independent, "
-         "C13_failed_schedule_identity, C13_failed_schedule_no_delivery, C13_no_internal_error; all by induction over "
+         "C13_failed_schedule_identity, C13_failed_schedule_no_delivery, C13_no_internal_error, C13_second_start_identity; all by induction over "
          "arbitrary call lists (no bound). The model is tied to /repo by running the real BaseObserver with scripted "
          "emitters and the extracted model on the same call sequences on every run, and a reference-map oracle taken from "
          "the property text is evaluated on the real observer.",
@@ -49,9 +49,10 @@ TRUSTED = [
 ASSUMPTIONS = [
     "one API thread and quiescence between calls (no event in flight, observer thread joined after stop())",
     "watch identity is ObservedWatch.key = (path, recursive, event_filter); follow_symlink is not part of the key",
-    "a failed start() de-schedules the watch of the failing emitter (pinned by the repo's own test); start() on an "
-    "observer whose emitters already run therefore de-schedules one watch and raises RuntimeError - the model and the "
-    "reference map follow the code here",
+    "a failed start() de-schedules the watch of the failing emitter (pinned by the repo's own test); a retry after such "
+    "a failure meets the emitters the failed attempt had already started and de-schedules the first of them "
+    "(RuntimeError of that emitter thread) - the model and the reference map follow the code here; a start() on an "
+    "observer whose own thread was ever started is refused up front and changes nothing (C13_second_start_identity)",
 ]
 
 PATHS = ["p0", "p1"]
@@ -461,7 +462,7 @@ CORPUS_BUILTIN = [
     # F2b: start() fails on the only emitter, unschedule, re-schedule
     [[["S", 1, ["p0", False, 0]], "N"], [["ST"], ["F", 0]], [["U", ["p0", False, 0]], "N"],
      [["S", 2, ["p0", False, 0]], "N"], [["ST"], "N"]],
-    # start twice, stop, start again, equal watches, filters
+    # start twice (the second is refused up front), stop, start again, equal watches, filters
     [[["S", 1, ["p0", False, 0]], "N"], [["S", 2, ["p0", False, 0]], "N"], [["S", 1, ["p0", False, 1]], "N"],
      [["ST"], "N"], [["ST"], "N"], [["S", 2, ["p1", True, 0]], "N"], [["SP"], "N"], [["S", 1, ["p1", False, 0]], "N"],
      [["ST"], "N"]],
